@@ -63,7 +63,19 @@ def idx(r, n):
     return r.choice(c)
 
 
-def episode(r, nops, src="rand"):
+def hinted(r, n):
+    """hinted rank/select with arbitrary arguments: the executor calls the unsafe method only when its
+    precondition holds (the specification re-derives that), otherwise the event is `na`"""
+    k = r.randrange(3)
+    if k == 0:
+        pos = r.randrange(n) if n else 0
+        return {"op": "rank_hinted", "pos": pos, "hp": r.choice([0, pos // 64, max(0, pos // 64 - 1), r.randrange(pos // 64 + 1)])}
+    rr = r.randrange(n) if n and r.random() < 0.7 else r.choice([0, 1, n // 2])
+    hp = r.choice([0, 0, 63, 64, r.randrange(n) if n else 0])
+    return {"op": "select_hinted" if k == 1 else "select_zero_hinted", "r": rr, "hp": hp}
+
+
+def episode(r, nops, src="rand", reload=True):
     ops = [ctor(r)]
     form = "vec"
     n = None  # tracked only loosely for argument choice (not an oracle)
@@ -99,17 +111,35 @@ def episode(r, nops, src="rand"):
                 ops.append({"op": r.choice(["flip", "par_flip", "reset", "par_reset"])})
             elif k < 0.74:
                 ops.append({"op": r.choice(["get", "index"]), "i": idx(r, n)})
-            elif k < 0.9:
+            elif k < 0.86:
                 ops.append({"op": r.choice(["len", "iter", "into_iter", "iter_ones", "iter_zeros", "count_ones",
-                                            "par_count_ones", "count_zeros", "display", "to_owned", "clone"])})
+                                            "par_count_ones", "count_zeros", "display", "to_owned", "clone",
+                                            "mem_size", "capacity"])})
+            elif k < 0.9:
+                ops.append(hinted(r, n))
             elif k < 0.95:
                 # compare with a vector of the same/other length whose backend differs
                 # only beyond the length, or in exactly one bit inside
                 ops.append({"op": "eq_self", "mode": r.choice(["same", "garbage", "flip_inside", "shorter", "longer"]),
                             "at": r.randrange(max(1, n))})
-            else:
+            elif k < 0.975 or not reload:
                 to = r.choice(["boxed", "atomic"]) if form == "vec" else r.choice(["vec", "atomic_boxed"])
                 ops.append({"op": "into", "to": to}); form = to
+            else:
+                mode = r.choice(["full", "eps", "mmap"])
+                ops.append({"op": "reload", "mode": mode}); form = form if mode == "full" else "ro"
+        elif form == "ro":
+            k = r.random()
+            if k < 0.6:
+                ops.append({"op": r.choice(["len", "iter", "into_iter", "iter_ones", "iter_zeros", "count_ones",
+                                            "count_zeros", "display", "to_owned", "clone", "mem_size"])})
+            elif k < 0.75:
+                ops.append({"op": r.choice(["get", "index"]), "i": idx(r, n)})
+            elif k < 0.9:
+                ops.append(hinted(r, n))
+            else:
+                ops.append({"op": "eq_self", "mode": r.choice(["same", "garbage", "flip_inside", "shorter", "longer"]),
+                            "at": r.randrange(max(1, n))})
         else:
             k = r.random()
             if k < 0.3:
@@ -123,12 +153,13 @@ def episode(r, nops, src="rand"):
             elif k < 0.7:
                 ops.append({"op": r.choice(["a_flip", "a_par_flip", "a_reset", "a_par_reset"])})
             elif k < 0.9:
-                ops.append({"op": r.choice(["a_len", "a_iter", "a_count_ones", "a_par_count_ones", "a_count_zeros"])})
+                ops.append({"op": r.choice(["a_len", "a_iter", "a_count_ones", "a_par_count_ones", "a_count_zeros",
+                                            "a_mem_size"])})
             else:
                 to = "vec" if form == "atomic" else "boxed"
                 ops.append({"op": "into", "to": to}); form = to
     # closing battery
-    if form in ("vec", "boxed"):
+    if form in ("vec", "boxed", "ro"):
         ops += [{"op": "iter"}, {"op": "iter_ones"}, {"op": "iter_zeros"}, {"op": "count_ones"},
                 {"op": "eq_self", "mode": "garbage", "at": 0}]
     else:
@@ -177,4 +208,133 @@ def dirty_episodes(seed, count):
         # argument choice in episode() tracked the original constructor's length;
         # indices may be out of range here, which the specification handles (panic)
         eps.append(ep)
+    return eps
+
+
+def full_battery(n):
+    idxs = sorted(set(x for x in [0, 1, n // 2, n - 1, n, n + 1, 63, 64, 65] if x >= 0))
+    ops = [{"op": "len"}, {"op": "iter"}, {"op": "into_iter"}, {"op": "iter_ones"}, {"op": "iter_zeros"},
+           {"op": "count_ones"}, {"op": "count_zeros"}, {"op": "display"}, {"op": "to_owned"}, {"op": "clone"},
+           {"op": "mem_size"}]
+    ops += [{"op": "get", "i": i} for i in idxs] + [{"op": "index", "i": i} for i in idxs]
+    ops += [{"op": "eq_self", "mode": m, "at": n // 2} for m in ("same", "garbage", "flip_inside", "shorter", "longer")]
+    for rr in (0, 1, n // 3, n - 1):
+        for hp in (0, 64, n // 2):
+            ops.append({"op": "select_hinted", "r": max(0, rr), "hp": hp})
+            ops.append({"op": "select_zero_hinted", "r": max(0, rr), "hp": hp})
+    for pos in (0, 63, 64, n // 2, n - 1):
+        if pos >= 0:
+            ops.append({"op": "rank_hinted", "pos": pos, "hp": 0})
+            ops.append({"op": "rank_hinted", "pos": pos, "hp": pos // 64})
+    return ops
+
+
+def reload_episodes(seed, count):
+    """C15: construct (clean, dirty, empty, after shrinking) -> full observer battery -> reload (full / eps /
+    mmap) -> the same battery on the loaded instance (-> keep mutating the fully deserialised copy)."""
+    r = random.Random(seed ^ 0x15)
+    eps = []
+    for k in range(count):
+        ep = episode(r, r.randrange(0, 12), src="reload", reload=False)
+        ops = [o for o in ep["ops"]]
+        # stay in a serialisable form
+        ops = [o for o in ops if not (o["op"] == "into" or o["op"].startswith("a_"))]
+        if any(o["op"] == "into" for o in ep["ops"]):
+            ops = ops[:1]
+        n = 300
+        mode = ("full", "eps", "mmap")[k % 3]
+        ops += full_battery(n if k % 2 else 64)
+        if r.random() < 0.3:
+            ops.append({"op": "into", "to": "boxed"})
+        ops.append({"op": "reload", "mode": mode})
+        ops += full_battery(n if k % 2 else 64)
+        if mode == "full":
+            ops += [{"op": "push", "b": True}, {"op": "set", "i": 0, "b": True}, {"op": "resize", "n": 70, "v": True},
+                    {"op": "iter"}, {"op": "reload", "mode": "eps"}, {"op": "iter"}, {"op": "iter_ones"}]
+        eps.append({"fam": "bitvec", "src": "reload", "ops": ops})
+    # fixed corner cases: empty vector, exact word multiples, all ones
+    for n in (0, 1, 63, 64, 65, 128, 192):
+        for v in (False, True):
+            for mode in ("full", "eps", "mmap"):
+                eps.append({"fam": "bitvec", "src": "reload", "ops": [
+                    {"op": "with_value", "n": n, "v": v}] + full_battery(n) + [{"op": "reload", "mode": mode}] + full_battery(n)})
+    return eps
+
+
+def space_episodes(seed, count):
+    """C11: histories that only build or grow (the documented bound applies), each ending in mem_size; and
+    histories that shrink (only the backend-size bound applies)."""
+    r = random.Random(seed ^ 0x11)
+    eps = []
+    for n in BOUND + [1000, 4095, 4096, 4097, 100000]:
+        for c in ({"op": "new", "n": n}, {"op": "with_value", "n": n, "v": True},
+                  {"op": "macro_rep", "n": n, "v": True, "num": False}, {"op": "a_new", "n": n}):
+            ms = {"op": "a_mem_size"} if c["op"].startswith("a_") else {"op": "mem_size"}
+            eps.append({"fam": "bitvec", "src": "recipe", "ops": [c, ms]})
+        if n <= 300:
+            eps.append({"fam": "bitvec", "src": "recipe", "ops": [{"op": "collect", "bits": [True] * n}, {"op": "mem_size"},
+                                                                   {"op": "into", "to": "boxed"}, {"op": "mem_size"},
+                                                                   {"op": "into", "to": "atomic_boxed"}, {"op": "a_mem_size"}]})
+    for _ in range(count):
+        ops = [r.choice([{"op": "new", "n": rlen(r)}, {"op": "with_capacity", "c": rlen(r)}, {"op": "macro_empty"},
+                         {"op": "with_value", "n": rlen(r), "v": True}])]
+        for _ in range(r.randrange(1, 12)):
+            j = r.randrange(4)
+            if j == 0:
+                ops += [{"op": "push", "b": r.random() < 0.5} for _ in range(r.choice([1, 2, 63, 64, 65, 130]))]
+            elif j == 1:
+                ops.append({"op": "extend", "bits": rbits(r, r.choice([1, 63, 64, 65, 129]))})
+            elif j == 2:
+                ops.append({"op": "resize", "n": rlen(r, 600) + 300, "v": r.random() < 0.5})   # may shrink: the spec tracks it
+            else:
+                ops.append({"op": "set", "i": 0, "b": True})
+            ops.append({"op": "mem_size"})
+            if r.random() < 0.15:
+                ops.append({"op": "pop"})
+                ops.append({"op": "mem_size"})
+        ops += [{"op": "capacity"}, {"op": "mem_size"}, {"op": "len"}]
+        eps.append({"fam": "bitvec", "src": "space", "ops": ops})
+    return eps
+
+
+def ood_episodes(seed, count):
+    """C12: out-of-domain arguments on every safe method of every form (index at and past the end, huge
+    values, empty and minimal vectors): the specification admits a panic that changes nothing, or the
+    documented result; `abort` and `hang` are admissible nowhere."""
+    r = random.Random(seed ^ 0x12)
+    eps = []
+    huge = [2 ** 31, 2 ** 32, 2 ** 63 - 1, 2 ** 63, 2 ** 64 - 64, 2 ** 64 - 1]
+    for n in [0, 1, 63, 64, 65, 128, 129]:
+        bad = [n, n + 1, n + 63, n + 64, ((n + 63) // 64) * 64, ((n + 63) // 64) * 64 + 1] + huge
+        for ctor in ({"op": "new", "n": n}, {"op": "with_value", "n": n, "v": True},
+                     {"op": "raw", "rlen": n, "rnw": (n + 63) // 64 + 1, "rstore": list(range(((n + 63) // 64 + 1) * 64))}):
+            ops = [ctor]
+            for i in bad:
+                ops += [{"op": "get", "i": i}, {"op": "index", "i": i}, {"op": "set", "i": i, "b": True},
+                        {"op": "set", "i": i, "b": False}]
+            ops += [{"op": "pop"}] * 2 if n == 0 else []
+            ops += [{"op": "iter_ones"}, {"op": "iter_zeros"}, {"op": "iter"}, {"op": "count_ones"}, {"op": "into", "to": "boxed"}]
+            for i in bad[:4] + huge[-2:]:
+                ops += [{"op": "get", "i": i}, {"op": "set", "i": i, "b": True}]
+            ops += [{"op": "iter_ones"}, {"op": "iter_zeros"}, {"op": "into", "to": "atomic_boxed"}]
+            for i in bad:
+                ops += [{"op": "a_get", "i": i}, {"op": "a_index", "i": i}, {"op": "a_set", "i": i, "b": True},
+                        {"op": "a_swap", "i": i, "b": False}]
+            ops += [{"op": "a_iter"}, {"op": "a_count_ones"}]
+            eps.append({"fam": "bitvec", "src": "ood", "ops": ops})
+        for mode in ("eps", "mmap"):
+            ops = [{"op": "with_value", "n": n, "v": True}, {"op": "reload", "mode": mode}]
+            for i in bad:
+                ops += [{"op": "get", "i": i}, {"op": "index", "i": i}]
+            ops += [{"op": "iter_ones"}, {"op": "iter_zeros"}, {"op": "iter"}]
+            eps.append({"fam": "bitvec", "src": "ood", "ops": ops})
+    for _ in range(count):
+        ep = episode(r, r.randrange(3, 15), src="ood")
+        ops = []
+        for o in ep["ops"]:
+            ops.append(o)
+            if o["op"] in ("push", "pop", "resize", "extend", "into") and r.random() < 0.7:
+                i = r.choice(huge + [64, 65, 128, 129, 300, 301])
+                ops.append({"op": r.choice(["get", "set", "index", "a_get", "a_set", "a_swap", "a_index"]), "i": i, "b": True})
+        eps.append({"fam": "bitvec", "src": "ood", "ops": ops})
     return eps
